@@ -129,7 +129,7 @@ func (k *c12Case) writeInput(dir string) (args []string, stdin []byte, err error
 		src += k.bad + "\n"
 	}
 	if k.extras {
-		src += "#Def: {n: int, s?: string}\n_hidden: string\nopt?: int\nlet L = 5\n"
+		src += "#Def: {n: int, s?: string}\n_hidden: string\nopt?: int\n"
 	}
 	write := func(name, content string) {
 		if err == nil {
@@ -329,7 +329,7 @@ func (rn *c12Runner) run(k *c12Case) {
 			impArgs = append(impArgs, "-l", `"w"`)
 			finalArgs = []string{"-e", "w"}
 		}
-		if k.input == "pkg" || k.input == "pkgsel" || k.impMode == 1 || k.input == "file" && false {
+		if k.impMode == 1 || k.id%3 == 0 {
 			impArgs = append(impArgs, "-f")
 		}
 		if filepath.Ext(outFile) == ".dat" {
